@@ -1,6 +1,7 @@
 #!/usr/bin/env python3
-"""Archive the wave-3 seeded changes (/tmp/w3/out-Cxx/k + /tmp/w3/res-*.txt) under /verif/seeded/Cxx-w3-k/."""
-import glob, json, os, re, shutil
+"""Archive seeded changes of a wave (/tmp/wN/out-Cxx/k + /tmp/wN/res-*.txt) under /verif/seeded/Cxx-wN-k/.  usage: archive_w3.py [3|4]"""
+import glob, json, os, re, shutil, sys
+WAVE = sys.argv[1] if len(sys.argv) > 1 else '3'
 V = os.path.dirname(os.path.dirname(os.path.abspath(__file__)))
 props = {json.loads(l)["id"]: json.loads(l) for l in open(os.path.join(V, "properties.jsonl"))}
 STRENGTH = {
@@ -19,16 +20,30 @@ STRENGTH = {
  "C18-w3-1": ("C18", "part D: cache collector life cycle - Stop before the goroutine ran, after yields, while parked, exactly at a collection tick"),
  "C20-w3-1": ("C20", "wired cases with reports transmitted after the last block was assembled (accepted, never in a block): not performs"),
  "C20-w3-3": ("C20", "TestC20Race: component stress of listener / trackers / source under -race (logs in consecutive blocks, pollers microseconds apart); simulated plans trigger logs in adjacent blocks"),
+ "C07-w4-1": ("C07", "plug-in mode ops offerlog / offerrecov: in-flight and performed work offered again by the plug-in's log provider / recoverable provider; what reaches the check pipeline is judged as a PreProcess answer"),
+ "C09-w4-1": ("C09", "family lockout-window-restarted-by-newer-report (110 s after the first acceptance, 50 s after the second)"),
+ "C09-w4-2": ("C09", "scenarios with a report gas limit that single units of work exceed (family heavy-gas-over-report-limit, random)"),
+ "C09-w4-3": ("C09", "liveness obligations at the 100-candidate boundary (families exactly-100-candidates, many-candidates)"),
+ "C02-w4-1": ("C02", "family quorum-heights-2^63-apart (and 2^63 -/+ 1) with a new proposal making the chosen block visible"),
+ "C02-w4-2": ("C02", "every round is also evaluated on instance 0 while two instances of ANOTHER config digest evaluate concurrently (12 overlapping evaluations)"),
+ "C08-w4-3": ("C08", "proposals that expired and were purged are made again, the next observation is judged (families expired-proposals-made-again, random)"),
+ "C05-w4-3": ("C05", "family cap-130-history-proposes-the-candidates: 130 candidates at quorum, 50 of them proposed in the previous outcome's history"),
+ "C10-w4-3": ("C10", "results with an equal check block on another fork (block hash follows the value tag)"),
+ "C13-w4-2": ("C13", "stress rounds in which the caller's context is cancelled once every batch is inside the pipeline, which answers normally"),
+ "C18-w4-2": ("C18", "part C site typegetter: panic in the injected UpkeepTypeGetter while proposalQueue.Dequeue calls it; Observation calls that never return are a violation"),
+ "C20-w4-2": ("C20", "race stress walks the perform history of an upkeep performed in every second block"),
+ "C20-w4-3": ("C20", "simulated plans carry jitters of every magnitude, incl. sub-millisecond"),
+ "C14-w4-1": ("C14", "family long-job-idle-then-burst (per-caller start delays): a long job, seconds of idleness, then a burst"),
 }
 res = {}
-for f in glob.glob("/tmp/w3/res-*.txt"):
+for f in glob.glob("/tmp/w%s/res-*.txt" % WAVE):
     for l in open(f):
-        m = re.match(r"(C\d\d)-w3-(\d): RESULT (.*)", l)
+        m = re.match(r"(C\d\d)-w%s-(\d): RESULT (.*)" % WAVE, l)
         if m:
             res[(m.group(1), m.group(2))] = m.group(3)
 for (p, k), r in sorted(res.items()):
-    sid = "%s-w3-%s" % (p, k)
-    src = "/tmp/w3/out-%s/%s" % (p, k)
+    sid = "%s-w%s-%s" % (p, WAVE, k)
+    src = "/tmp/w%s/out-%s/%s" % (WAVE, p, k)
     ok = all(x in r for x in ("build=ok", "suite=pass", "demo_with_change=fail", "demo_without_change=pass"))
     if not ok:
         print("SKIP", sid); continue
@@ -47,7 +62,7 @@ for (p, k), r in sorted(res.items()):
     if sid in STRENGTH:
         q, txt = STRENGTH[sid]
         after = {q: "VIOLATION (failing input replayed)", "strengthening": txt}
-    meta = {"id": sid, "wave": 3, "breaks_property": p, "property_title": props[p]["title"],
+    meta = {"id": sid, "wave": int(WAVE), "breaks_property": p, "property_title": props[p]["title"],
             "also_checked_against": [q for q in checks if q != p],
             "patch": "patch.diff", "demonstration": "demo_test.go.txt (copy into the package directory as a _test.go file)", "demonstration_package": pkg,
             "what_it_needs_to_manifest": readme[:1500],
